@@ -31,8 +31,14 @@ class RefSim:
         self.lims = [(0, None) if l is None else tuple(l) for l in lims]
 
     def rates(self, x, t):
-        r = [row[0] for row in self.afn(x, t, self.theta)]
-        return [float(r[i]) for i in self.order]
+        try:
+            r = [row[0] for row in self.afn(x, t, self.theta)]
+            r = [float(r[i]) for i in self.order]
+        except (ZeroDivisionError, OverflowError, ValueError):
+            return [-1.0] * self.ne        # outside the domain of the rate expressions
+        if any(v != v for v in r):
+            return [-1.0] * self.ne
+        return r
 
     def V(self, x, t):
         V = self.Vfn(x, t, self.theta)
@@ -370,3 +376,230 @@ def oracle_c04(cfg, rs, s):
 
 
 ORACLES = {"c04": oracle_c04}
+
+
+# ----------------------------------------------------------------------------- L1
+L1_EXP_VALUES = (0.3137, 0.7391, 1.1873, 2.0129, 3.3371)
+
+
+def _call_step(fn, args, kwargs, prefix, horizon=64, pois_menu=sched.POIS_MENU, exp_menu=None):
+    import io, contextlib
+    s = sched.Sched(prefix, horizon=horizon, pois_menu=pois_menu,
+                    exp_menu=exp_menu or L1_EXP_VALUES)
+    s.ret = None
+    s.error = None
+    try:
+        with sched.owned(s), contextlib.redirect_stdout(io.StringIO()):
+            s.ret = fn(*args, **kwargs)
+    except Exception as e:
+        s.error = "%s: %s" % (type(e).__name__, e)
+    return s
+
+
+def l1_explore(args):
+    """Explicit-state search of the jump chain through the real step functions.
+    args = (name, d, theta, x0, cap, tau_modes, pois_values).  Breadth-first over integer
+    states; from every state the real firstReaction is called for every ordering of the
+    enabled clocks and the real tauLeap for every vector of poisson answers; each call is
+    compared with the reference step.  Returns stats incl. the implementation-induced
+    kernel (requested exponential scales and successor per winning event)."""
+    name, d, theta, x0, cap, tau_modes, pois_values = args
+    from pygom.model import stochastic_simulation as ss
+    st = {"name": name, "states": 0, "transitions": 0, "violations": [], "skipped": None,
+          "kernel": {}, "illegal_steps": 0, "tau_fallback_none": 0, "n_viol": 0, "sample": None,
+          "capped_states": 0}
+    try:
+        cfg = Config(d, theta, x0, 1.0, ("exact",), name=name)
+        m, order = make_model(cfg)
+        rs = RefSim(d, theta, order)
+        m.get_ReactantMatrix()
+    except Exception as e:
+        st["skipped"] = "build: %s: %s" % (type(e).__name__, e)
+        return st
+    if "t" in {str(s_) for s_ in rs.R.a.free_symbols}:
+        st["skipped"] = "time-dependent rates (covered by whole-execution exploration)"
+        return st
+    lims = m._state_lims
+    t = 0.25
+
+    def viol(what, x, **kw):
+        st["n_viol"] += 1
+        if len(st["violations"]) < 3:
+            st["violations"].append({"what": what, "state": list(x), "detail": kw})
+
+    seen = {tuple(x0)}
+    frontier = [tuple(x0)]
+    while frontier:
+        nxt = []
+        for xt in frontier:
+            st["states"] += 1
+            x = list(xt)
+            r = rs.rates(x, t)
+            if any(v < 0 for v in r):
+                continue
+            xa = np.array(x, float)
+            enabled = [e for e in range(rs.ne) if r[e] > 0]
+            succ = set()
+            kern = {"scales": {}, "succ": {}}
+            # ---- exact steps: every ordering of the enabled clocks
+            if not enabled:
+                s = _call_step(ss.firstReaction, (xa.copy(), lims, t, m.vMat, m.eventRateVector), {}, [])
+                st["transitions"] += 1
+                if s.error or not (isinstance(s.ret, tuple) and len(s.ret) == 5 and s.ret[4] is False):
+                    viol("absorbing-state-step", x, ret=repr(s.ret)[:200], error=s.error)
+                if s.log:
+                    viol("draws-in-absorbing-state", x, log=s.log)
+            else:
+                K = len(enabled)
+                if K > len(L1_EXP_VALUES):
+                    perms = [tuple(range(K)), tuple(reversed(range(K)))] + [tuple(((i + k) % K) for i in range(K)) for k in range(1, K)]
+                    # beyond 5 enabled events: each event wins once + two full orders
+                    perms = [tuple(min(p_, len(L1_EXP_VALUES) - 1) for p_ in p) for p in perms]
+                else:
+                    perms = list(itertools.permutations(range(K)))
+                for perm in perms:
+                    xin = xa.copy()
+                    s = _call_step(ss.firstReaction, (xin, lims, t, m.vMat, m.eventRateVector), {}, list(perm))
+                    st["transitions"] += 1
+                    if s.error:
+                        viol("exact-step-raised", x, error=s.error, perm=perm)
+                        continue
+                    if not np.array_equal(xin, xa):
+                        viol("input-state-mutated", x, perm=perm)
+                    # requests
+                    want = [("exp", 1.0 / r[e]) for e in enabled]
+                    got = [(k_, a_) for k_, a_, _v in s.log]
+                    if len(got) != len(want) or any(g[0] != w[0] or not close(g[1], w[1]) for g, w in zip(got, want)):
+                        viol("exact-draw-requests", x, want=want, got=got)
+                        continue
+                    for e, (_k, a_, _v) in zip(enabled, s.log):
+                        kern["scales"][e] = a_
+                    vals = [v_ for _k, _a, v_ in s.log]
+                    wi = min(range(K), key=lambda i: vals[i])
+                    w = enabled[wi]
+                    n = [0] * rs.ne
+                    n[w] = 1
+                    xn = rs.apply(x, t, n)
+                    try:
+                        t_new, dt, x_new, jumps, success = s.ret
+                    except Exception:
+                        viol("exact-step-return-shape", x, ret=repr(s.ret)[:200])
+                        continue
+                    if rs.legal(xn):
+                        ok = (success is True and close(t_new, t + vals[wi]) and close(dt, vals[wi])
+                              and np.array_equal(np.asarray(x_new), np.asarray(xn, float))
+                              and list(jumps) == n)
+                        if not ok:
+                            viol("exact-step-result", x, perm=perm, want={"x": xn, "t": t + vals[wi], "jumps": n},
+                                 got={"x": np.asarray(x_new).tolist(), "t": t_new, "jumps": list(jumps), "success": success})
+                        kern["succ"][w] = xn
+                        succ.add(tuple(int(v) for v in xn))
+                    else:
+                        st["illegal_steps"] += 1
+                        ok = (success is False and np.array_equal(np.asarray(x_new), xa) and t_new == t)
+                        if not ok:
+                            viol("illegal-step-not-refused", x, perm=perm, proposal=xn,
+                                 got={"x": np.asarray(x_new).tolist(), "t": t_new, "success": success})
+                        kern["succ"][w] = None
+            # ---- tau-leap steps: every vector of poisson answers
+            if enabled:
+                for tm in tau_modes:
+                    kw = {"epsilon": 0.03, "seed": None, "pre_tau": None}
+                    if tm[0] == "tau_fixed":
+                        kw["pre_tau"] = tm[1]
+                    else:
+                        kw["epsilon"] = tm[1]
+                    menus = [range(len(pois_values)) if r[e] > 0 else [0] for e in range(rs.ne)]
+                    for pre in itertools.product(*menus):
+                        xin = xa.copy()
+                        s = _call_step(ss.tauLeap, (xin, lims, t, m.vMat, m._lambdaMat, m.eventRateVector,
+                                                    m.transitionMean, m.transitionVar, m.pureOdeVector), kw,
+                                       list(pre), pois_menu=pois_values)
+                        st["transitions"] += 1
+                        if s.error:
+                            viol("tau-step-raised", x, error=s.error, answers=pre, mode=tm)
+                            continue
+                        if not np.array_equal(xin, xa):
+                            viol("input-state-mutated", x, mode=tm)
+                        if isinstance(s.ret, tuple) and len(s.ret) == 3 and s.ret[2] is False and not s.log:
+                            st["tau_fallback_none"] += 1     # step-size refinement gave up: no step taken
+                            continue
+                        if len(s.log) != rs.ne or any(k_ != "pois" for k_, _a, _v in s.log):
+                            viol("tau-draw-requests", x, got=[(k_, a_) for k_, a_, _v in s.log], mode=tm)
+                            continue
+                        taus = [a_ / r[e] for e, (_k, a_, _v) in enumerate(s.log) if r[e] > 0]
+                        tau = taus[0]
+                        if not (tau > 0 and math.isfinite(tau)) or any(not close(a_, tau * r[e]) for e, (_k, a_, _v) in enumerate(s.log)):
+                            viol("tau-poisson-means", x, got=[a_ for _k, a_, _v in s.log], rates=r, mode=tm)
+                            continue
+                        if tm[0] == "tau_fixed" and tau > tm[1] * (1 + 1e-12):
+                            viol("tau-exceeds-fixed-step", x, tau=tau, mode=tm)
+                        n = [int(v_) for _k, _a, v_ in s.log]
+                        xn = rs.apply(x, t, n)
+                        try:
+                            t_new, dt, x_new, jumps, success = s.ret
+                        except Exception:
+                            viol("tau-step-return-shape", x, ret=repr(s.ret)[:200])
+                            continue
+                        if rs.legal(xn):
+                            ok = (success is True and close(t_new, t + tau) and close(dt, tau)
+                                  and np.array_equal(np.asarray(x_new), np.asarray(xn, float))
+                                  and [int(j) for j in jumps] == n)
+                            if not ok:
+                                viol("tau-step-result", x, answers=n, want={"x": xn, "t": t + tau},
+                                     got={"x": np.asarray(x_new).tolist(), "t": t_new, "jumps": [int(j) for j in jumps], "success": success}, mode=tm)
+                            succ.add(tuple(int(v) for v in xn))
+                        else:
+                            st["illegal_steps"] += 1
+                            ok = (success is False and np.array_equal(np.asarray(x_new), xa) and t_new == t)
+                            if not ok:
+                                viol("illegal-step-not-refused", x, answers=n, proposal=xn, mode=tm,
+                                     got={"x": np.asarray(x_new).tolist(), "t": t_new, "success": success})
+            st["kernel"][xt] = kern
+            if st["sample"] is None and enabled:
+                st["sample"] = {"model": name, "state": x, "rates": r, "successors": sorted(succ)[:6]}
+            for y in succ:
+                if y not in seen:
+                    if sum(y) > cap or max(y) > cap or min(y) < -2:
+                        st["capped_states"] += 1
+                        continue
+                    seen.add(y)
+                    nxt.append(y)
+        frontier = nxt
+    return st
+
+
+def oracle_c11(cfg, rs, s):
+    """limits only: every recorded state within its declared limits (lower 0 when none is
+    declared); judged on the raw path and, independently, nothing else."""
+    if s.error is not None:
+        v = triage_error(cfg, rs, s)
+        if v is not None and v.what.startswith("did-not-return"):
+            # returning is C04's business; a crash caused by leaving the limits shows up as
+            # negative rates -> poisson(lam<0); report it here as well
+            return v
+        return v
+    X = np.asarray(s.out[0][0])
+    for k, row in enumerate(X):
+        if not rs.legal(row.tolist()):
+            return Mismatch("state-outside-limits", row=row.tolist(), index=k, limits=rs.lims)
+    # a refused step must leave state and time unchanged: the path continues from the same
+    # state, so the reference path (which refuses the same steps) must agree
+    exact = cfg.mode[0] == "exact"
+    return check_raw_path(rs, cfg.x0, cfg.t0, cfg.T, exact, (s.out[0][0], s.out[1][0], s.out[2][0]), s.log)
+
+
+def oracle_c10(cfg, rs, s):
+    if s.error is not None:
+        return triage_error(cfg, rs, s)
+    X = np.asarray(s.out[0][0])
+    tot = float(np.sum(cfg.x0))
+    sums = X.sum(axis=1)
+    if not np.all(sums == tot):
+        k = int(np.argmax(sums != tot))
+        return Mismatch("population-not-conserved", index=k, row=X[k].tolist(), total=tot)
+    return None
+
+
+ORACLES["c11"] = oracle_c11
+ORACLES["c10"] = oracle_c10
